@@ -195,6 +195,14 @@ class Engine(ExprMixin, CallMixin, StmtMixin):
                 if isinstance(sub, (ast.For, ast.AsyncFor, ast.While)):
                     self.loop_ord[id(sub)] = k
                     k += 1
+            # occurrence numbers of textually identical simple statements (for ghost keys "text#k")
+            self.stmt_occ = {}
+            seen_txt = {}
+            for sub in self._preorder(fn):
+                if isinstance(sub, ast.stmt) and not isinstance(sub, (ast.If, ast.For, ast.While, ast.Try, ast.FunctionDef, ast.AsyncFunctionDef)):
+                    t = ast.unparse(sub).strip()
+                    seen_txt[t] = seen_txt.get(t, 0) + 1
+                    self.stmt_occ[id(sub)] = seen_txt[t]
             self.cur_loops = c.loops_for(target)
             for o in self.cur_loops:
                 if o >= k:
@@ -209,6 +217,10 @@ class Engine(ExprMixin, CallMixin, StmtMixin):
             if missing or extra:
                 raise Unsupported(fn, f"contract-out-of-date: parameters differ (missing {missing}, unknown {extra})")
             st = self.initial_state(c, fn)
+            for extra in (fn.args.vararg, fn.args.kwarg):
+                if extra is not None:
+                    from .sorts import OPAQUE
+                    st.env[extra.arg] = const(OPAQUE, f"arg_{extra.arg}")
             for r in c.requires:
                 st.assume(self.spec_bool(r, st))
             entry_env = dict(st.env)
